@@ -2,7 +2,8 @@
    Statements only; proofs are in Proofs/BTree*.v, the model in Model/BTreeM.v. *)
 From DV Require Import Base.Prelude Model.BTreeM Proofs.BTreeBase Proofs.BTreeWf Proofs.BTreeInsert
   Proofs.BTreeLookup Proofs.BTreeDelete Proofs.BTreeTop
-  Model.BTreeStoreM Proofs.BTreeStore Proofs.BTreeIsolation Proofs.BTreeCursor Proofs.BTreeHistory.
+  Model.BTreeStoreM Proofs.BTreeStore Proofs.BTreeIsolation Proofs.BTreeCursor Proofs.BTreeHistory
+  Proofs.BTreeRefine Proofs.BTreeRefine5.
 
 (* _Node.search_in_node (shortcut + binary search) on a key-sorted node = linear search *)
 Theorem search_spec : forall k es, ksorted es -> search k es = Ok (lsearch k es).
@@ -180,25 +181,45 @@ Theorem history_wf : forall xs,
 Proof. exact history_wf_proof. Qed.
 Print Assumptions history_wf.
 
-(* Copy-on-write isolation, on the store-level model (nodes with ids and creator tags, in-place
-   writes, maybe_cow / maybe_cow_child / clone allocate).  After ANY history of operations
-   (new trees, inserts, deletes, freezes, clones - `execs`), one more operation on a tree leaves
-   every other tree of the world - originals and clones alike - with the same root pointer and
-   the same value-level tree (`abs`, for every depth), because a mutation writes only nodes
-   tagged with the mutating tree's own creator (Proofs/BTreeStore.v) and no other tree can
-   reach such a node (invariant WI, proved for every reachable world).
-   `_partial`: the model's delete carries one ghost check that Python does not have (the child
-   found again after rebalancing is written without maybe_cow_child; the model stops with
-   eForeign if that child is not owned).  That the check never fires needs the store/value
-   refinement, which is not proved; it is exercised by the correspondence (997 never occurs). *)
-Theorem cow_isolated_partial : forall xs x w' o,
+(* The store-level model (nodes with ids and creator tags, in-place writes, maybe_cow /
+   maybe_cow_child / clone allocate - Model/BTreeStoreM.v, the model the harness runs) refines the
+   value-level model: after ANY history `xs` of store operations (new trees, inserts, deletes,
+   freezes, clones and the collections.abc mixins pop / popitem / clear / setdefault), executed
+   on the store (`execs`) and on value-level trees (`vexecs`: BTreeM.insert_element /
+   delete_btree / get / minimum), every tree of the store world has the parameters of, and reads
+   back (`abs`, from its root pointer) exactly as, its value-level tree, which is well-formed. *)
+Theorem store_refines : forall xs, represents (execs (mkSW [] []) xs) (vexecs [] xs).
+Proof. exact store_represents_proof. Qed.
+Print Assumptions store_refines.
+
+(* Copy-on-write isolation, full statement.  After any history, one more operation `x`:
+   - before and after, the store world represents the value-level trees, and the operation's
+     effect on them and its result are those of the value-level operation (`vexec`: only the
+     target tree changes, by insert_element / delete_btree);
+   - the result is never an internal model error: the one ghost check the store model's delete
+     carries (the child found again after rebalancing is written without maybe_cow_child; the
+     model stops with eForeign = 997 if it is not owned) never fires, because the re-search
+     lands on the child that grew, which balance has copied (Proofs/BTreeRefine3.v);
+   - every OTHER tree of the world - originals and clones alike - keeps its root pointer and
+     reads back from the store exactly as before, at every depth. *)
+Theorem cow_isolated : forall xs x w' o,
   let w := execs (mkSW [] []) xs in
+  let ts := vexecs [] xs in
   exec w x = (w', o) ->
+  represents w ts /\
+  represents w' (fst (vexec ts x)) /\
+  o = snd (vexec ts x) /\
+  (forall e, o = Prelude.E e -> In e [eImmutable; eKey; eMismatch; eNoMatch; eNotImmutable; eBadT; eBadCase]) /\
   forall k bk, target x <> Some k -> nth_error (sw_trees w) k = Some bk ->
     nth_error (sw_trees w') k = Some bk /\
     forall fuel, abs fuel (sw_store w') (sb_root bk) = abs fuel (sw_store w) (sb_root bk).
-Proof. exact cow_isolated_proof. Qed.
-Print Assumptions cow_isolated_partial.
+Proof. exact cow_isolated_full. Qed.
+Print Assumptions cow_isolated.
+
+Theorem ghost_check_never_fires : forall xs x,
+  snd (exec (execs (mkSW [] []) xs) x) <> Prelude.E eForeign.
+Proof. exact BTreeRefine5.ghost_check_never_fires. Qed.
+Print Assumptions ghost_check_never_fires.
 
 Theorem cow_invariant_reachable : forall xs, WI (execs (mkSW [] []) xs).
 Proof. exact WI_reachable. Qed.
